@@ -3,7 +3,7 @@
    [run_plan] executes the emitted nested graphs node by node (the emitted model with names erased: which application
    sits in which graph in which order; the naming layer is C02's).  The statement holds for EVERY operator semantics. *)
 From Coq Require Import List String NArith Arith Bool.
-From Spox Require Import Base IR Show Build Sem Plan Named Validate BuildFacts SemFacts NamedFacts.
+From Spox Require Import Base IR Show Build Sem Plan Named Validate BuildFacts SemFacts NamedFacts EmitFacts CoverageFacts.
 Import ListNotations.
 
 Theorem C01_build_sem :
@@ -64,3 +64,16 @@ Theorem C01_unrequested_irrelevant :
 Proof. intros p r m i o H Hi Ho. apply build_checked_inv in H. destruct H as [_ Hv].
   exact (proj2 (emitted_exactly_once p r m i o Hi Ho Hv)). Qed.
 Print Assumptions C01_unrequested_irrelevant.
+
+(* "Every well-typed program ... builds [a model that computes the program's dataflow]" has a structural half that needs no
+   validator: no operator application a requested output depends on is ever DROPPED by a successful build (and nothing else is
+   emitted) - main_model_nodes = reachable applications, as sets, for every program whose object graph is acyclic. *)
+Theorem C01_no_application_is_dropped_by_construction :
+  forall p r m inputs outputs,
+  build_public p r = inl m -> all_vars (r_inputs r) = Some inputs -> all_vars (r_outputs r) = Some outputs ->
+  cover_premises_b (with_main p None outputs) = true ->
+  exists args, (r_drop r = false -> args = map snd inputs) /\ (forall a, In a args -> In a (map snd inputs)) /\
+    forall u, In u (srcs_graph (mmain m)) <->
+      (In u (topo_of (with_main p (Some args) outputs) 0) /\ is_arg (with_main p (Some args) outputs) u = false).
+Proof. exact build_public_emits_exactly. Qed.
+Print Assumptions C01_no_application_is_dropped_by_construction.
